@@ -161,7 +161,29 @@ pub fn run(ctx: &Ctx) -> Outcome {
             if let Some(l) = &looked[li] {
                 others.push(("get_interpreter_for(code)", l.as_ref()));
             }
-            match i % 3 {
+            match i % 4 {
+                3 => {
+                    // short number-like phrases straight into the validator (the only caller of exec_group)
+                    let k = 1 + rng.usize(4);
+                    let phrase: String = (0..k)
+                        .map(|_| match rng.below(10) {
+                            0 | 1 => lex.conj.to_string(),
+                            2 => lex.zero.to_string(),
+                            3 if !lex.ordinal_words.is_empty() => rng.pick(&lex.ordinal_words).clone(),
+                            _ => rng.pick(&lex.number_words).clone(),
+                        })
+                        .collect::<Vec<_>>()
+                        .join(" ");
+                    crate::core::set_current(code, "facade vs concrete (phrase)", &phrase);
+                    rep.eval(hash_bytes(&[code.as_bytes(), b"p", phrase.as_bytes()]), true);
+                    for (name, o) in &others {
+                        let (va, vb) = (conc.validate(&phrase), o.validate(&phrase));
+                        if va != vb {
+                            rep.violation(&format!("{}:phrase:{}", code, name), jobj! {"kind" => "text", "lang" => code, "text" => phrase.as_str()}, format!("[{} via {}] text2digits({:?}): concrete {:?} vs other {:?}", code, name, phrase, va, vb));
+                        }
+                    }
+                    rep.count("phrase_cases");
+                }
                 0 => {
                     let s = workload_text(&mut rng, lex, 10);
                     crate::core::set_current(code, "facade vs concrete (text)", &s);
